@@ -68,7 +68,7 @@ func genC07(rng *rand.Rand, c *Case) {
 	c.Cfg["acctroot"] = rng.Intn(3) / 2
 	c.Cfg["nest"] = 16 // deeper than any chain of ".." the hostile grammar can produce
 	n := 6 + rng.Intn(30)
-	kinds := []string{"alias-move", "list", "info", "setinfo", "delete", "move", "mkdir", "alias", "download", "upload", "fldr-download", "fldr-upload", "newuser", "renameuser", "deluser", "setuser"}
+	kinds := []string{"alias-move", "list", "info", "setinfo", "delete", "move", "mkdir", "alias", "download", "upload", "fldr-download", "fldr-upload", "newuser", "renameuser", "deluser", "setuser", "restart"}
 	for i := 0; i < n; i++ {
 		c.Ops = append(c.Ops, Op{K: kinds[rng.Intn(len(kinds))], N: []int{rng.Intn(1 << 30)}})
 	}
@@ -290,6 +290,26 @@ func runC07(w *World) {
 				}
 			case "setuser":
 				c.SetUser(hostileSeg(rng), "n", rp.AccessOf(rp.PReadChat), PwAbsent, "")
+			case "restart":
+				// whatever the earlier requests left in the accounts directory is loaded (and possibly repaired or
+				// migrated) by the start-up code: that, too, must stay inside
+				w.StopServer()
+				simrt.Sleep(3 * time.Second)
+				if si := w.StartServer(); si.StartErr != nil {
+					w.Probe("restart_refused_by_account_files")
+					// an account file the loader cannot digest is not C07's business; go on with a fresh server on the
+					// same directory only if it starts
+					w.Violate("c07-restart-fails", "step %d: the server does not start from the account files the requests left: %v", step, si.StartErr)
+					return
+				}
+				c.Conn = nil
+				c.LoggedIn = false
+				c.Closed = false
+				c.FrameErr = nil
+				if !c.Login("guest", "", c.Name, 1) {
+					w.Violate("c07-relogin", "could not log in after the restart at step %d", step)
+					return
+				}
 			}
 			w.Probe("ops_" + op.K)
 			if c.Closed {
